@@ -4,6 +4,7 @@ CONSTANTS
     MaxCerts = 3
     PerBagLegacy = 30
     PerBagGov = 8
+    FlagEvery = 1
 INIT Init
 NEXT Next
 INVARIANT VariantSane
@@ -13,3 +14,5 @@ INVARIANT OneSideBreaks
 INVARIANT CertAlgebra
 INVARIANT Signs
 INVARIANT EraShape
+INVARIANT FlagIrrelevant
+INVARIANT FlagTwin
